@@ -113,3 +113,13 @@ Theorem C01_machine_quiescent_partial : forall c fc ai h r st outs,
   keys_down (fkeys h) = [] -> analogT (fst st) = [] -> recv [] (all_midi outs) = [].
 Proof. exact machine_quiescent. Qed.
 Print Assumptions C01_machine_quiescent_partial.
+
+(* ---- the same at the PORT (Model/EndToEnd.v: any number of devices composed with the relay of C15, all interleavings of
+   their goroutines, any channel capacities): once device k's history has been processed, its input closed and
+   everything delivered, nothing it started is sounding at the receiver behind the port. *)
+From HIDI Require Import Model.Relay Model.EndToEnd Proofs.EndToEndProofs.
+Theorem C01_at_the_port : forall ds port_cap out_cap s k c h,
+  reachable (estep port_cap out_cap) (einit ds) s -> quiescent s -> nth_error ds k = Some (c, h) -> alternating h ->
+  recv [] (at_port s k) = [].
+Proof. exact e2e_disconnect. Qed.
+Print Assumptions C01_at_the_port.
